@@ -104,6 +104,25 @@ Theorem C11_released_external_cleared :
 Proof. exact (conj released_lossy_Decoder_external (conj released_lossless_Decoder_external released_lossless_Encoder_external)). Qed.
 Print Assumptions C11_released_external_cleared.
 
+(** * ConstZero fields are allocated once and never written: [yuvP] of the lossy
+    encoder is the only one; the regenerated list of EVERY access to it in the package
+    equals the modelled one (allocation; prediction buffer of PickBestI4Mode), and no
+    regenerated write list of the acquire / import / encode / release functions names
+    it.  A future write to it, or handing it to another callee, breaks this. *)
+Theorem C11_constzero_fields_never_written :
+  fields_of_class ConstZero class_VP8Encoder = ["yuvP"] /\
+  F.lossy_VP8Encoder_yuvP_accesses = [("allocateBuffers", "set"); ("tryI4Modes", "arg:PickBestI4Mode#2")] /\
+  forallb (fun w => forallb (fun f => negb (mem f (written w))) (fields_of_class ConstZero class_VP8Encoder))
+          all_VP8Encoder_write_lists_but_alloc = true /\
+  subset (fields_of_class ConstZero class_VP8Encoder) (strongly_written F.lossy_VP8Encoder_allocateBuffers_writes) = true /\
+  fields_of_class ConstZero class_TokenBuffer ++ fields_of_class ConstZero class_lossy_Decoder
+  ++ fields_of_class ConstZero class_lossless_Encoder ++ fields_of_class ConstZero class_lossless_Decoder
+  ++ fields_of_class ConstZero class_parallelState ++ fields_of_class ConstZero class_RowWorker
+  ++ fields_of_class ConstZero class_importUVWorker ++ fields_of_class ConstZero class_BoolWriter
+  ++ fields_of_class ConstZero class_argbBuf = [].
+Proof. exact constzero_fields_never_written. Qed.
+Print Assumptions C11_constzero_fields_never_written.
+
 (** * dimension gate: one statement per length dependency *)
 Theorem C11_dimension_gate_encoder_dims :
   F.lossy_VP8Encoder_NewEncoder_gate = ["mbW"; "mbH"] /\
@@ -146,20 +165,24 @@ Print Assumptions C11_dimension_gate_lossy_Decoder.
     For every pooled type (field list, classification, acquire-path and release
     assignment lists) that passes the reset-completeness check, for every call
     body [run] that satisfies the frame condition (result depends only on Config,
-    State and the observable shape of Scratch fields) and every gate satisfying the
-    dimension-gate condition: for all histories [h], all last calls [a], all pool
+    State, ConstZero fields and the observable shape of Scratch fields), never writes
+    the ConstZero fields, and every gate satisfying the dimension-gate condition; the
+    pool initially holds only objects whose ConstZero fields have their allocation value: for all histories [h], all last calls [a], all pool
     behaviours (which pooled objects the runtime drops, which one Get returns or
     none, whether Put keeps the object) and all initial pool contents, the last
     call returns exactly what it returns as the only call of a fresh process. *)
 Theorem C11_history_independent :
   forall (Args Out Val Shape : Type) (shape : Args -> Val -> Shape)
          (fields : list string) (cls : list (string * fclass)) (assigned released : list string)
-         (init : Args -> string -> Val) (nilv : Val)
+         (init : Args -> string -> Val) (nilv zerov : Val)
          (gate : Args -> (string -> Val) -> bool) (run : Args -> (string -> Val) -> Out * (string -> Val)),
     reset_complete_b fields cls assigned released = true ->
     frame_condition Args Out Val Shape shape fields cls run ->
     dimension_gate_condition Args Val Shape shape fields cls assigned init gate ->
+    (forall a, czero_inv Val fields cls zerov (fresh Args Val init a)) ->
+    (forall a o, czero_inv Val fields cls zerov o -> czero_inv Val fields cls zerov (snd (run a o))) ->
     forall (h : list (Args * behaviour)) (a : Args) (b b0 : behaviour) (p0 : list (string -> Val)),
+      pool_inv Val fields cls zerov p0 ->
       out_of_last Out Val (run_history Args Out Val assigned released init nilv gate run p0 (h ++ [(a, b)]))
       = out_of_last Out Val (run_history Args Out Val assigned released init nilv gate run [] [(a, b0)]).
 Proof. exact history_independent. Qed.
@@ -169,12 +192,15 @@ Print Assumptions C11_history_independent.
 Theorem C11_history_all_outputs_fresh :
   forall (Args Out Val Shape : Type) (shape : Args -> Val -> Shape)
          (fields : list string) (cls : list (string * fclass)) (assigned released : list string)
-         (init : Args -> string -> Val) (nilv : Val)
+         (init : Args -> string -> Val) (nilv zerov : Val)
          (gate : Args -> (string -> Val) -> bool) (run : Args -> (string -> Val) -> Out * (string -> Val)),
     reset_complete_b fields cls assigned released = true ->
     frame_condition Args Out Val Shape shape fields cls run ->
     dimension_gate_condition Args Val Shape shape fields cls assigned init gate ->
+    (forall a, czero_inv Val fields cls zerov (fresh Args Val init a)) ->
+    (forall a o, czero_inv Val fields cls zerov o -> czero_inv Val fields cls zerov (snd (run a o))) ->
     forall (h : list (Args * behaviour)) (p0 : list (string -> Val)),
+      pool_inv Val fields cls zerov p0 ->
       fst (run_history Args Out Val assigned released init nilv gate run p0 h)
       = map (fun c => fst (run (fst c) (fresh Args Val init (fst c)))) h.
 Proof. exact history_all_outputs_fresh. Qed.
@@ -183,31 +209,31 @@ Print Assumptions C11_history_all_outputs_fresh.
 (** instantiated with the regenerated lists of the real pooled types *)
 Theorem C11_history_independent_all_pooled_types :
   forall (Args Out Val Shape : Type) (shape : Args -> Val -> Shape)
-         (init : Args -> string -> Val) (nilv : Val)
+         (init : Args -> string -> Val) (nilv zerov : Val)
          (gate : Args -> (string -> Val) -> bool) (run : Args -> (string -> Val) -> Out * (string -> Val)),
-    hist_indep Args Out Val Shape shape init nilv gate run
+    hist_indep Args Out Val Shape shape init nilv gate run zerov
                F.lossy_VP8Encoder_fields class_VP8Encoder assigned_VP8Encoder released_VP8Encoder /\
-    hist_indep Args Out Val Shape shape init nilv gate run
+    hist_indep Args Out Val Shape shape init nilv gate run zerov
                F.lossy_Decoder_fields class_lossy_Decoder assigned_lossy_Decoder released_lossy_Decoder /\
-    hist_indep Args Out Val Shape shape init nilv gate run
+    hist_indep Args Out Val Shape shape init nilv gate run zerov
                F.lossless_Encoder_fields class_lossless_Encoder assigned_lossless_Encoder released_lossless_Encoder /\
-    hist_indep Args Out Val Shape shape init nilv gate run
+    hist_indep Args Out Val Shape shape init nilv gate run zerov
                F.lossless_Decoder_fields class_lossless_Decoder assigned_lossless_Decoder released_lossless_Decoder /\
-    hist_indep Args Out Val Shape shape init nilv gate run
+    hist_indep Args Out Val Shape shape init nilv gate run zerov
                F.bitio_BoolWriter_fields class_BoolWriter assigned_BoolWriter [] /\
-    hist_indep Args Out Val Shape shape init nilv gate run
+    hist_indep Args Out Val Shape shape init nilv gate run zerov
                F.root_argbBuf_fields class_argbBuf assigned_argbBuf [] /\
-    hist_indep Args Out Val Shape shape init nilv gate run
+    hist_indep Args Out Val Shape shape init nilv gate run zerov
                F.lossy_parallelState_fields class_parallelState assigned_parallelState
                (strongly_written F.lossy_parallelState_putParallelState_writes).
 Proof.
-  intros. exact (conj (history_independent_VP8Encoder _ _ _ _ _ _ _ _ _)
-                (conj (history_independent_lossy_Decoder _ _ _ _ _ _ _ _ _)
-                (conj (history_independent_lossless_Encoder _ _ _ _ _ _ _ _ _)
-                (conj (history_independent_lossless_Decoder _ _ _ _ _ _ _ _ _)
-                (conj (history_independent_BoolWriter _ _ _ _ _ _ _ _ _)
-                (conj (history_independent_argbBuf _ _ _ _ _ _ _ _ _)
-                      (history_independent_parallelState _ _ _ _ _ _ _ _ _))))))).
+  intros. exact (conj (history_independent_VP8Encoder _ _ _ _ _ _ _ _ _ _)
+                (conj (history_independent_lossy_Decoder _ _ _ _ _ _ _ _ _ _)
+                (conj (history_independent_lossless_Encoder _ _ _ _ _ _ _ _ _ _)
+                (conj (history_independent_lossless_Decoder _ _ _ _ _ _ _ _ _ _)
+                (conj (history_independent_BoolWriter _ _ _ _ _ _ _ _ _ _)
+                (conj (history_independent_argbBuf _ _ _ _ _ _ _ _ _ _)
+                      (history_independent_parallelState _ _ _ _ _ _ _ _ _ _))))))).
 Qed.
 Print Assumptions C11_history_independent_all_pooled_types.
 
@@ -217,9 +243,10 @@ Print Assumptions C11_history_independent_all_pooled_types.
 Theorem C11_model_detects_missing_reset :
   reset_complete_b PoolExample.fields PoolExample.cls ["n"] [] = true /\
   reset_complete_b PoolExample.fields PoolExample.cls [] [] = false /\
+  reset_complete_b PoolExample.fields PoolExample.cls ["n"; "k"] [] = false /\
   out_of_last _ _ (run_history nat nat nat [] [] PoolExample.init 0 PoolExample.gate PoolExample.run []
                                ([(5, PoolExample.hit)] ++ [(7, PoolExample.hit)]))
   <> out_of_last _ _ (run_history nat nat nat [] [] PoolExample.init 0 PoolExample.gate PoolExample.run []
                                   [(7, PoolExample.hit)]).
-Proof. exact (conj PoolExample.complete (conj PoolExample.check_detects_missing_reset PoolExample.stale_state_leaks)). Qed.
+Proof. exact (conj PoolExample.complete (conj PoolExample.check_detects_missing_reset (conj PoolExample.check_detects_constzero_write PoolExample.stale_state_leaks))). Qed.
 Print Assumptions C11_model_detects_missing_reset.
